@@ -181,8 +181,7 @@ def install(env):
                 t = x.term
                 f = z3.Function(f"atoi_base{base}", ISEQ, I)
                 p = z3.Function(f"atoi_base{base}_ok", ISEQ, z3.BoolSort())
-                if not it.ctx.branch(p(t)):
-                    it.raise_exc(ValueError, "invalid literal for int()")
+                it.require(p(t), ValueError, "invalid literal for int()")
                 return ops.mk_int(f(t))
             return it.native(int, x, base)
         if isinstance(x, SInt):
@@ -196,8 +195,7 @@ def install(env):
             fl = z3.ToInt(t)
             return ops.mk_int(z3.If(t >= 0, fl, -z3.ToInt(-t)))
         if isinstance(x, (SStr, SBytes)):
-            if not it.ctx.branch(P_atoi_ok(x.term)):
-                it.raise_exc(ValueError, "invalid literal for int() with base 10")
+            it.require(P_atoi_ok(x.term), ValueError, "invalid literal for int() with base 10")
             return ops.mk_int(F_atoi(x.term))
         if isinstance(x, SV):
             it.raise_exc(TypeError, "int() argument must be a string, a bytes-like object or a real number")
@@ -423,8 +421,7 @@ def install(env):
     def sym_decode(it, b, encoding="utf-8", errors="strict"):
         t = ops.bytes_term(b)
         if errors == "strict":
-            if not it.ctx.branch(P_utf8ok(t)):
-                it.raise_exc(UnicodeDecodeError, "utf-8", b"", 0, 1, "invalid start byte")
+            it.require(P_utf8ok(t), UnicodeDecodeError, "utf-8", b"", 0, 1, "invalid start byte")
         s = F_utf8dec(t)
         it.ctx.assume(F_utf8enc(s) == t) if errors == "strict" else None
         return ops.mk_str(s)
@@ -518,8 +515,7 @@ def install(env):
             if not ops.is_intlike(v):
                 it.raise_exc(TypeError, "an integer is required")
             vt = ops.int_term(v)
-            if not it.ctx.branch(z3.And(vt >= 0, vt <= 255)):
-                it.raise_exc(ValueError, "bytes must be in range(0, 256)")
+            it.require(z3.And(vt >= 0, vt <= 255), ValueError, "bytes must be in range(0, 256)")
             t = z3.Concat(t, z3.Unit(vt))
         return SBytes(z3.simplify(t), True) if mutable else ops.mk_bytes(t, False)
 
@@ -537,8 +533,7 @@ def install(env):
         if not ops.is_intlike(x):
             it.raise_exc(TypeError, "an integer is required")
         xt = ops.int_term(x)
-        if not it.ctx.branch(z3.And(xt >= 0, xt <= 255)):
-            it.raise_exc(ValueError, "byte must be in range(0, 256)")
+        it.require(z3.And(xt >= 0, xt <= 255), ValueError, "byte must be in range(0, 256)")
         set_term(b, z3.Concat(b.term, z3.Unit(xt)))
 
     @method(SBytes, "extend")
@@ -556,11 +551,9 @@ def install(env):
         if not b.mutable:
             it.raise_exc(AttributeError, "'bytes' object has no attribute 'pop'")
         n = z3.Length(b.term)
-        if not it.ctx.branch(n > 0):
-            it.raise_exc(IndexError, "pop from empty bytearray")
+        it.require(n > 0, IndexError, "pop from empty bytearray")
         i, ok = ops._norm_index(it, idx, n)
-        if not it.ctx.branch(ok):
-            it.raise_exc(IndexError, "pop index out of range")
+        it.require(ok, IndexError, "pop index out of range")
         e = z3.simplify(b.term[i])
         if not z3.is_int_value(e):
             it.ctx.assume(z3.And(e >= 0, e <= 255))
@@ -593,8 +586,7 @@ def install(env):
 
     def _fromhex(it, s):
         if isinstance(s, SStr):
-            if not it.ctx.branch(P_hexok(s.term)):
-                it.raise_exc(ValueError, "non-hexadecimal number found in fromhex() arg")
+            it.require(P_hexok(s.term), ValueError, "non-hexadecimal number found in fromhex() arg")
             r = F_hexdec(s.term)
             it.ctx.assume(F_hexenc(r) == F_lower(s.term))
             return ops.mk_bytes(r, False)
@@ -646,8 +638,7 @@ def install(env):
         if signed or isinstance(length, SV):
             raise Unsupported("to_bytes signed / symbolic length")
         xt = x.term
-        if not it.ctx.branch(z3.And(xt >= 0, xt < z3.IntVal(256 ** length))):
-            it.raise_exc(OverflowError, "int too big to convert")
+        it.require(z3.And(xt >= 0, xt < z3.IntVal(256 ** length)), OverflowError, "int too big to convert")
         if length <= 16:
             units = [z3.Unit((xt / z3.IntVal(256 ** j)) % 256) for j in range(length)]
             if byteorder == "big":
@@ -674,11 +665,9 @@ def install(env):
     @method(SSeq, "pop")
     def _spop(it, s, idx=-1):
         n = z3.Length(s.term)
-        if not it.ctx.branch(n > 0):
-            it.raise_exc(IndexError, "pop from empty list")
+        it.require(n > 0, IndexError, "pop from empty list")
         i, ok = ops._norm_index(it, idx, n)
-        if not it.ctx.branch(ok):
-            it.raise_exc(IndexError, "pop index out of range")
+        it.require(ok, IndexError, "pop index out of range")
         e = s.term[i]
         r = ops.unbox_elem(it, s.elem, z3.simplify(e))
         set_term(s, z3.Concat(z3.Extract(s.term, z3.IntVal(0), i), z3.Extract(s.term, i + 1, n - i - 1)), structural=True)
@@ -759,8 +748,7 @@ def install(env):
             vt = ops.int_term(v)
             signed = ch.islower()
             lo, hi = (-(1 << (8 * size - 1)), (1 << (8 * size - 1)) - 1) if signed else (0, (1 << (8 * size)) - 1)
-            if not it.ctx.branch(z3.And(vt >= lo, vt <= hi)):
-                it.raise_native(struct.error(f"'{ch}' format requires {lo} <= number <= {hi}"))
+            it.require_native(z3.And(vt >= lo, vt <= hi), lambda: struct.error(f"'{ch}' format requires {lo} <= number <= {hi}"))
             if signed:
                 vt = z3.If(vt < 0, vt + z3.IntVal(1 << (8 * size)), vt)
             units = [z3.Unit((vt / z3.IntVal(256 ** j)) % 256 if j else vt % 256) for j in range(size)]
@@ -776,8 +764,7 @@ def install(env):
         order, items = struct_layout(fmt)
         total = sum(s for _, s in items)
         t = ops.bytes_term(data)
-        if not it.ctx.branch(z3.Length(t) == total):
-            it.raise_native(struct.error(f"unpack requires a buffer of {total} bytes"))
+        it.require_native(z3.Length(t) == total, lambda: struct.error(f"unpack requires a buffer of {total} bytes"))
         out = []
         off = 0
         for ch, size in items:
@@ -841,11 +828,22 @@ class SRange(StubObj):
         d = b - a
         return z3.If(d <= 0, z3.IntVal(0), (d + s - 1) / s)
 
-    def len_term(self):
-        return self.count_term()
+    # iteration protocol of a for-loop with invariant: the ghost is the *position* (linear
+    # arithmetic only; the congruence position = start + k*step is deliberately forgotten)
+    def g_init(self):
+        return self.start
 
-    def item(self, it, idx):
-        return ops.mk_int(ops.int_term(self.start) + ops.int_term(idx) * ops.int_term(self.step))
+    def g_constraints(self, g):
+        return [g >= ops.int_term(self.start)]
+
+    def g_has_next(self, g):
+        return g < ops.int_term(self.stop)
+
+    def g_item(self, it, g):
+        return ops.mk_int(ops.int_term(g))
+
+    def g_advance(self, g):
+        return g + ops.int_term(self.step)
 
     def sym_iter(self, it):
         n = 0
